@@ -45,7 +45,7 @@ impl LinkNameMatcher {
 }
 
 impl Matcher for LinkNameMatcher {
-    fn matches(&self, file_info: &WalkEntry, _: &mut MatcherIO) -> bool {
+    fn matches(&self, file_info: &WalkEntry, matcher_io: &mut MatcherIO) -> bool {
         // A link that -L/-H resolves is not a link as far as the tests are
         // concerned (its type is the target's); only broken links remain links.
         if !file_info.file_type().is_symlink() {
@@ -53,7 +53,8 @@ impl Matcher for LinkNameMatcher {
         }
 
         if let Some(target) = read_link_target(file_info) {
-            self.pattern.matches(&target.to_string_lossy())
+            self.pattern
+                .matches_or_report(&target.to_string_lossy(), matcher_io)
         } else {
             false
         }
